@@ -281,3 +281,39 @@ func funcName(f *ssa.Function) string {
 	s = strings.ReplaceAll(s, modPath+"/", "")
 	return s
 }
+
+// FuncDecl finds the syntax of a package-level function or method.
+func (p *Prog) FuncDecl(relPkg, recv, name string) (*ast.FuncDecl, *packages.Package) {
+	pk := p.ByPath[pkgPath(relPkg)]
+	if pk == nil {
+		return nil, nil
+	}
+	for _, f := range pk.Syntax {
+		for _, d := range f.Decls {
+			fd, ok := d.(*ast.FuncDecl)
+			if !ok || fd.Name.Name != name {
+				continue
+			}
+			r := ""
+			if fd.Recv != nil && len(fd.Recv.List) == 1 {
+				t := fd.Recv.List[0].Type
+				if st, ok := t.(*ast.StarExpr); ok {
+					t = st.X
+				}
+				if ix, ok := t.(*ast.IndexExpr); ok {
+					t = ix.X
+				}
+				if ix, ok := t.(*ast.IndexListExpr); ok {
+					t = ix.X
+				}
+				if id, ok := t.(*ast.Ident); ok {
+					r = id.Name
+				}
+			}
+			if r == recv {
+				return fd, pk
+			}
+		}
+	}
+	return nil, pk
+}
